@@ -460,6 +460,11 @@ def _cache_step(cur_cls, next_cls):
         if not follows and (cur_cls or next_cls) in ('PayloadFrame', 'RequestChannelFrame'):
             tag = 'cache:complete_flag_of_last_fragment[%s]' % (cur_cls or next_cls)
             P(tag, B(E.truth(E.getattr(acc, 'flags_complete'))) == B(ncomplete))
+        if not follows and (cur_cls or next_cls) == 'PayloadFrame':
+            # every fragment of a PAYLOAD carries the original's next flag (c03.new_frame_fragment); the reassembled frame
+            # takes it from the closing fragment, like the complete flag
+            P('cache:next_flag_of_last_fragment[PayloadFrame]',
+              B(E.truth(E.getattr(acc, 'flags_next'))) == B(E.truth(E.getattr(nxt, 'flags_next'))))
     return run
 
 
